@@ -2,7 +2,11 @@
 use crate::ctx::{Ctx, Outcome, Tier};
 use serde_json::Value;
 
+pub mod c08;
+pub mod c09;
+pub mod c16;
 pub mod c20;
+pub mod numcommon;
 
 pub trait Prop {
     fn id(&self) -> &'static str;
@@ -36,7 +40,7 @@ pub trait Prop {
 }
 
 pub fn all() -> Vec<Box<dyn Prop>> {
-    vec![Box::new(c20::C20)]
+    vec![Box::new(c08::C08), Box::new(c09::C09), Box::new(c16::C16), Box::new(c20::C20)]
 }
 
 pub fn lookup(id: &str) -> Option<Box<dyn Prop>> {
